@@ -445,6 +445,11 @@ def run(ctx):
                 # every third file allows custom templates (seeded change C11/m5: the flag of the file was taken for the kind of the main component)
                 pragma = "pragma circom 2.0.0;\npragma custom_templates;\n" if len(jobs) % 3 == 1 else "pragma circom 2.0.0;\n"
                 text = pragma + "function f(x) { return x + 1; }\ntemplate %s%s\n" % (t, body.get(t, "() { signal input a; signal output b; b <== a; }" if args == "()" else "(n) { signal input a; signal output b; b <== a + n; }"))
+                # every fifth file includes a file that defines a template twice: the files cannot be assembled into a program, that error is
+                # located in a file that is not named (not displayed), and the main component is analysed all the same (review 'latest3' f1)
+                if len(jobs) % 5 == 2:
+                    wdm.write("dup_lib.circom", b"pragma circom 2.0.0;\ntemplate DupL() { signal input a; signal output b; b <== a; }\ntemplate DupL() { signal input a; signal output b; b <== a; }\n")
+                    text = text.replace("function f(x)", "include \"dup_lib.circom\";\nfunction f(x)", 1)
                 p = wdm.write("main_%s_%d.circom" % (c, len(jobs)), (text + "component main = %s%s;\n" % (t, args)).encode())
                 want = set()
                 if c != "BN254" and t in spec[c]:
